@@ -99,8 +99,10 @@ WriteBytes(d, off, w) ==
 ReadBytes(d, off, n) == IF off >= Len(d) THEN <<>> ELSE SubSeq(d, off + 1, Min(Len(d), off + n))
 
 \* pw: the write calls [off, data] since the last data sync of the file, in issue order (kept only under BlockSize)
-NewFile == [kind |-> "file", ents |-> NoEnts, data |-> <<>>, dents |-> NoEnts, ddata |-> <<>>, cands |-> {}, pw |-> <<>>]
-NewDir  == [kind |-> "dir",  ents |-> NoEnts, data |-> <<>>, dents |-> NoEnts, ddata |-> <<>>, cands |-> {}, pw |-> <<>>]
+\* at: the path under which a directory inode was linked last (ghost; locates a dangling subtree after a crash)
+NewFile == [kind |-> "file", ents |-> NoEnts, data |-> <<>>, dents |-> NoEnts, ddata |-> <<>>, cands |-> {}, pw |-> <<>>, at |-> ""]
+NewDir  == [kind |-> "dir",  ents |-> NoEnts, data |-> <<>>, dents |-> NoEnts, ddata |-> <<>>, cands |-> {}, pw |-> <<>>, at |-> "/"]
+NewDirAt(s) == [NewDir EXCEPT !.at = s]
 SetData(t, i, d) == [t EXCEPT ![i].data = d, ![i].cands = IF SyncKnob THEN @ \cup {d} ELSE @]
 \* a write call: the new contents, and the call itself as a pending write
 Wrote(t, i, d, off, w) ==
@@ -264,7 +266,8 @@ R_SyncDir(op) ==
 R_Rename(op) ==
     LET f == op.p  t == op.q
         src == Lookup(f)  tgt == Lookup(t)
-        moved == Link(Unlink(ino, Lookup(ParentStr(f)), LastName(f)), Lookup(ParentStr(t)), LastName(t), src)
+        moved == [Link(Unlink(ino, Lookup(ParentStr(f)), LastName(f)), Lookup(ParentStr(t)), LastName(t), src)
+                     EXCEPT ![src].at = IF ino[src].kind = "dir" THEN t ELSE @]
     IN
     /\ UNCHANGED <<hnd, mode>>
     /\ IF src = NoIno THEN rres' = Err(IF ~ParentOk(f) THEN ParentErr(f) ELSE "NotFound") /\ UNCHANGED ino
@@ -291,7 +294,7 @@ R_CreateDir(op) ==
     /\ IF s = "/" THEN rres' = Err("AlreadyExists") /\ UNCHANGED ino
        ELSE IF ~ParentOk(s) THEN rres' = Err(ParentErr(s)) /\ UNCHANGED ino
        ELSE IF Lookup(s) # NoIno THEN rres' = Err("AlreadyExists") /\ UNCHANGED ino
-       ELSE rres' = Ok(0) /\ ino' = Link(Append(ino, NewDir), Lookup(ParentStr(s)), LastName(s), Len(ino) + 1)
+       ELSE rres' = Ok(0) /\ ino' = Link(Append(ino, NewDirAt(s)), Lookup(ParentStr(s)), LastName(s), Len(ino) + 1)
 
 \* std::fs::create_dir_all: walk the components top down, creating what is missing
 RECURSIVE MkAll(_, _, _)
@@ -302,7 +305,7 @@ MkAll(t, q, k) ==       \* returns [t, e]: table after creating prefixes k..Len(
          IN IF i # NoIno THEN
                 IF t[i].kind = "dir" THEN MkAll(t, q, k + 1)
                 ELSE [t |-> t, e |-> IF k = Len(q) THEN "AlreadyExists" ELSE "NotDir"]
-            ELSE MkAll(Link(Append(t, NewDir), WalkT(t, Root, SubSeq(q, 1, k - 1)), q[k], Len(t) + 1), q, k + 1)
+            ELSE MkAll(Link(Append(t, NewDirAt(Str(pre))), WalkT(t, Root, SubSeq(q, 1, k - 1)), q[k], Len(t) + 1), q, k + 1)
 R_CreateDirAll(op) ==
     LET r == MkAll(ino, Seg(op.p), 1) IN
     /\ UNCHANGED <<hnd, mode>>
@@ -370,7 +373,11 @@ ReachSet(t, frontier, seen) ==
     ELSE LET nxt == UNION {Succ(t, i) : i \in frontier} IN ReachSet(t, nxt \ seen, seen \cup nxt)
 Reachable(t) == ReachSet(t, {Root}, {Root})
 \* a directory inode that is not reachable after the crash but owns durable entries: a dangling subtree
-Dangling(t) == \E i \in DOMAIN t : i \notin Reachable(t) /\ t[i].kind = "dir" /\ DOMAIN t[i].ents # {}
+DanglingSet(t) == {i \in DOMAIN t : i \notin Reachable(t) /\ t[i].kind = "dir" /\ DOMAIN t[i].ents # {}}
+Dangling(t) == DanglingSet(t) # {}
+\* paths strictly below the place where a dangling directory was linked last: the dangling subtree ("leaves
+\* dangling subtrees unspecified") -- a path-keyed implementation may show it again under a re-created name
+InDanglingSubtree(t, s) == \E i \in DanglingSet(t) : t[i].at # s /\ IsPrefixOf(Seg(t[i].at), Seg(s))
 \* number of (directory, name) links to inode i from reachable directories
 LinkCount(t, i) == Cardinality({jn \in Reachable(t) \X AllNames :
                                    t[jn[1]].kind = "dir" /\ jn[2] \in DOMAIN t[jn[1]].ents /\ t[jn[1]].ents[jn[2]] = i})
@@ -382,7 +389,9 @@ ChainOk(t, q, k) ==      \* every proper prefix of q of length >= k is a singly 
     IF k >= Len(q) THEN TRUE
     ELSE LET i == WalkT(t, Root, SubSeq(q, 1, k)) IN
          i # NoIno /\ t[i].kind = "dir" /\ i \notin MultiLinked(t) /\ ChainOk(t, q, k + 1)
-AssertedT(t, s) == ChainOk(t, Seg(s), 1) /\ (LookupT(t, s) = NoIno \/ LookupT(t, s) \notin MultiLinked(t))
+AssertedT(t, s) ==
+    /\ ChainOk(t, Seg(s), 1) /\ (LookupT(t, s) = NoIno \/ LookupT(t, s) \notin MultiLinked(t))
+    /\ ~InDanglingSubtree(t, s)
 Masked == [k |-> "?", l |-> 0, d |-> <<>>, ed |-> FALSE, e |-> <<>>, alt |-> {}]
 \* the listing of an asserted directory is asserted only for its asserted children; a file may hold any of the
 \* contents the knobs permit: `alt` ("its contents are those at its last data sync", or with background
